@@ -615,8 +615,8 @@ def gen_cases(ctx):
     for n in range(2, nmax + 1):
         for lens in seqs(L, n - 1):
             tot = sum(lens)
-            yield from path_cases(lens, half_grid(r, min(tot, 9) + 1, 4 if not th else 8))
-    for _ in range(700 if not th else 12000):
+            yield from path_cases(lens, half_grid(r, min(tot, 9) + 1, 4 if not th or n == 6 else 8))
+    for _ in range(700 if not th else 6000):
         n = r.randint(6, 8)
         lens = [r.choice(L + [1, 1, 0, 10]) for _ in range(n - 1)]
         yield from path_cases(lens, half_grid(r, min(sum(lens), 14) + 1, 2))
@@ -656,15 +656,15 @@ def gen_cases(ctx):
     for n in range(2, (4 if not th else 5) + 1):
         for incs in seqs(INC, n - 1):
             tot = sum(wrap16(x) for x in incs)
-            yield from angle_cases(incs, half_grid(r, min(tot, 8) + 1, 3 if not th else 6))
-    for _ in range(350 if not th else 6000):
+            yield from angle_cases(incs, half_grid(r, min(tot, 8) + 1, 3 if not th else 4))
+    for _ in range(350 if not th else 3000):
         n = r.randint(5, 8)
         incs = [r.choice(INC + [1, 1, 2]) for _ in range(n - 1)]
         yield from angle_cases(incs, half_grid(r, 9, 2))
     for u in ("other",):
         yield {"kind": "grid", "fn": "delta", "unit": u, "all": False, "pos": grid_positions(r, [1, 1, 1]), "delta": 1.0, "t": 0.1}
     # ---- random stream
-    nr = 60 if not th else 400
+    nr = 60 if not th else 300
     for q in range(nr):
         big = (q % 12 == 0)
         n = r.randint(2000, 3000) if big else r.choice([r.randint(2, 12), r.randint(10, 120), r.randint(100, 400)])
@@ -698,7 +698,7 @@ def gen_cases(ctx):
         yield {**base, "fn": "angle", "all": False, "deg": False, "delta": dang, "t": 0.0}
         yield {**base, "fn": "delta", "unit": "deg", "all": False, "delta": math.degrees(dang), "t": 0.1}
         rt = r.choice([0.05, 0.1, 0.3])
-        if n <= 400 or (th and q % 24 == 0):
+        if n <= 400 or (th and q == 0):
             yield {**base, "fn": "path", "all": True, "delta": dpath, "t": dpath * r.choice([0.01, 0.1, 0.3])}
             yield {**base, "fn": "delta", "unit": "m", "all": True, "delta": dpath, "t": r.choice([0.1, 0.02])}
         if n <= 120:
